@@ -1,7 +1,7 @@
 #!/bin/sh
 # Run once after a fresh restore (offline). Everything the checks need is rebuilt by the
-# checks themselves from /repo's working tree; setup only verifies the toolchain is there
-# and warms the Kani build of the dependency tree so the first check does not pay for it.
+# checks themselves from /repo's working tree; setup verifies the toolchain is there, checks
+# the two environment models the harnesses rely on, and regenerates MANIFEST.json.
 set -e
 cd "$(dirname "$0")"
 export CARGO_NET_OFFLINE=true
@@ -14,4 +14,11 @@ for c in math codec core; do
   [ -f harnesses/$c/Cargo.toml ] || continue
   cp /repo/Cargo.lock harnesses/$c/Cargo.lock
 done
+# (1) the word-wise memcmp linked into every harness == the byte-wise one (decided by CBMC)
+( cd driver/clib && cbmc memcmp_words.c memcmp_equiv.c --function equiv32 --unwind 33 --unwinding-assertions >/dev/null )
+# (2) the container model used under feature echo_verif_flat == std's B-tree containers on
+#     random operation sequences (translator validation, DESIGN R6)
+TC=$(sed -n 's/^channel *= *"\(.*\)"/\1/p' /repo/rust-toolchain.toml)
+( cd harnesses/core && RUSTUP_TOOLCHAIN=${TC:-stable} cargo build --offline --quiet --bin flatdiff --features flat --target-dir target/native 2>/dev/null \
+  && ./target/native/debug/flatdiff 50000 >/dev/null ) || { echo "setup: container-model validation failed"; exit 1; }
 echo "setup ok"
